@@ -35,11 +35,13 @@ int main(void)
   char *delim = nondet_bool() ? NULL : mk_string(4);
   char *comment = nondet_bool() ? NULL : mk_string(4);
   g.name = name;
+  g.delim_arg = delim; g.comment_arg = comment;
   g.cb_data = nondet_ptr();
   g.cb_given = nondet_bool();
   econf_err r = read_file_with_callback(key_file, name, delim, comment,
                                         g.cb_given ? cb_stub : NULL, g.cb_data);
   VACUITY(r == ECONF_SUCCESS, "success reachable");
+  VACUITY(r == ECONF_SUCCESS && comment[0] == 0, "success with an empty comment set reachable");
   VACUITY(r == ECONF_WRONG_OWNER, "wrong owner reachable");
   VACUITY(r == ECONF_WRONG_GROUP, "wrong group reachable");
   VACUITY(r == ECONF_ERROR_FILE_IS_SYM_LINK, "symlink refusal reachable");
